@@ -155,6 +155,15 @@ def rem (a b : UInt32) : UInt32 :=
         let r := x - (ratTrunc (x / y) : Rat) * y
         if r == 0 then a &&& signMask else ofRat r
 
+/-- `f32::abs`: clears the sign bit. -/
+def fabs (b : UInt32) : UInt32 := b &&& 0x7FFFFFFF
+
+/-- `f32::rem_euclid` of the standard library (library/std/src/f32.rs):
+`let r = self % rhs; if r < 0.0 { r + rhs.abs() } else { r }`. -/
+def remEuclidStd (x m : UInt32) : UInt32 :=
+  let r := rem x m
+  if lt r 0 then add r (fabs m) else r
+
 /-- `b as u32 as f32` for a `bool`. -/
 def boolToF32 (c : Bool) : UInt32 := if c then one else 0
 
